@@ -1,6 +1,8 @@
 #ifndef _PROPHY_DETAIL_MPL_HPP
 #define _PROPHY_DETAIL_MPL_HPP
 
+#include <stdint.h>
+
 namespace prophy
 {
 namespace detail
@@ -17,10 +19,10 @@ struct is_class_or_union
     static const bool value = sizeof(is_class_or_union_tester<T>(0)) == sizeof(char);
 };
 
-template <int I>
+template <uint32_t I>
 struct int2type
 {
-    enum { value = I };
+    static const uint32_t value = I;
 };
 
 } // namespace detail
